@@ -3,6 +3,12 @@
    callbacks, driven by any number of concurrent threads under any schedule.  One step = one
    shared access of the Go code; the yield point (lib.VerifPoint label) is quoted at each pc.
 
+   application.start is a thread program of its own: CAS, then per member one spawn step (Init, the pid
+   stored in the group, the process registered in the node - in this order inside node.spawnMember, so
+   the three are one step: the process can neither run nor be killed in between) and one check step,
+   the Start callback, the reset of the `starting` flag and the final look at the group; members may
+   die and stop may be called between any two of them.
+
    Members are counted, not named: na = member processes still registered in the node,
    ng = len(a.group).  A dying member remembers the run (gen) its pid belongs to, so
    group.LoadAndDelete(pid) succeeds exactly for members of the current run - pids of different
@@ -28,14 +34,25 @@ Record shared := mk_sh {
   nmem : nat;              (* len(a.spec.Group) *)
   starts : nat;            (* Start callbacks *)
   runterms : nat;          (* Terminate callbacks since the last successful CAS Loaded->Running *)
-  terms : list nat         (* reasons given to the Terminate callback, oldest first *)
+  terms : list nat;        (* reasons given to the Terminate callback, oldest first *)
+  starting : bool;         (* a.starting: start() is spawning the members / running the Start callback *)
+  runstarts : nat;         (* Start callbacks since the last successful CAS Loaded->Running *)
+  rbk : bool               (* ghost: a rolled-back start stored Loaded while killed members were still in the
+                              group, and the last of them has not left it yet *)
 }.
 
 Inductive pc :=
-(* application.start(mode); fail = Some k: the spawn of member k fails.
-   "app.start.cas" ... "app.start.cb" are one step here: the guarded theorems keep the start
-   atomic anyway, what happens when it is not is recorded in findings/C17.md (start-race). *)
-| S_cas (mode : nat) (fail : option nat)
+(* application.start(mode); fail = Some k: the spawn of member k fails (its Init returns an error) *)
+| S_cas (mode : nat) (fail : option nat) (* "app.start.cas"  CAS Loaded->Running; a.reason = nil; a.mode = mode;
+                                            a.stopped = make(chan); a.starting = 1 *)
+| S_spawn (fail : option nat) (k : nat)  (* "app.start.spawn" + "app.start.store": spawnMember of item k *)
+| S_chk (fail : option nat) (k : nat)    (* "app.start.check" state != Running -> SendExit(pid, shutdown) *)
+| S_rbkill                               (* roll-back: Kill every member of the group *)
+| S_rollback                             (* "app.start.rollback" atomic.StoreInt32(&a.state, Loaded) *)
+| S_rbclear                              (* a.starting = 0; return err *)
+| S_cb                                   (* "app.start.cb"   a.behavior.Start(mode) *)
+| S_done                                 (* "app.start.done" a.starting = 0 *)
+| S_len                                  (* "app.start.len"  a.group.Len() == 0 -> a.finalise() *)
 (* application.stop(force, timeout); polls = how often the waiter looks at a.stopped before its
    timeout fires *)
 | P_cas (force : bool) (polls : nat)     (* "app.stop.cas"   CAS Running->Stopping *)
@@ -51,7 +68,9 @@ Inductive pc :=
 | D_stopping (r : nat)                   (* "app.term.stopping" CAS Running->Stopping *)
 | D_reason (r : nat)                     (* "app.term.reason" a.reason = r *)
 | D_tell                                 (* "app.term.tell"  SendExit(shutdown) to the group *)
+| D_starting                             (* "app.term.starting" a.starting == 1 -> return *)
 | D_len                                  (* "app.term.len"   a.group.Len() > 0 ? *)
+(* a.finalise(): reached from terminate and from the end of start *)
 | D_default                              (* "app.term.default" a.reason == nil -> normal *)
 | D_loaded                               (* "app.term.loaded" old := Swap(Loaded) *)
 | D_close                                (* "app.term.close" close(a.stopped) *)
@@ -62,50 +81,78 @@ Inductive pc :=
 
 Record cfg := mk_cfg { sh : shared; thr : list pc }.
 
+(* functional record update: every field named, so that `cbn [fields upd]` reduces projections *)
+Definition upd (s : shared) (st' : ast) (na' ng' : nat) (mode' : nat) (reason' : option nat)
+               (stopped' toldall' starting' rbk' : bool) : shared :=
+  mk_sh st' na' ng' (gen s) mode' reason' stopped' toldall' (nmem s) (starts s) (runterms s) (terms s)
+        starting' (runstarts s) rbk'.
+
 Definition upd_st (s : shared) (x : ast) : shared :=
-  mk_sh x (na s) (ng s) (gen s) (mode s) (reason s) (stopped s) (toldall s) (nmem s) (starts s) (runterms s) (terms s).
+  upd s x (na s) (ng s) (mode s) (reason s) (stopped s) (toldall s) (starting s) (rbk s).
 Definition upd_mode (s : shared) (x : nat) : shared :=
-  mk_sh (st s) (na s) (ng s) (gen s) x (reason s) (stopped s) (toldall s) (nmem s) (starts s) (runterms s) (terms s).
+  upd s (st s) (na s) (ng s) x (reason s) (stopped s) (toldall s) (starting s) (rbk s).
 Definition upd_reason (s : shared) (x : option nat) : shared :=
-  mk_sh (st s) (na s) (ng s) (gen s) (mode s) x (stopped s) (toldall s) (nmem s) (starts s) (runterms s) (terms s).
-Definition upd_told (s : shared) : shared :=
-  mk_sh (st s) (na s) (ng s) (gen s) (mode s) (reason s) (stopped s) true (nmem s) (starts s) (runterms s) (terms s).
+  upd s (st s) (na s) (ng s) (mode s) x (stopped s) (toldall s) (starting s) (rbk s).
+Definition upd_told (s : shared) (b : bool) : shared :=
+  upd s (st s) (na s) (ng s) (mode s) (reason s) (stopped s) b (starting s) (rbk s).
 Definition upd_na (s : shared) (x : nat) : shared :=
-  mk_sh (st s) x (ng s) (gen s) (mode s) (reason s) (stopped s) (toldall s) (nmem s) (starts s) (runterms s) (terms s).
-Definition upd_ng (s : shared) (x : nat) : shared :=
-  mk_sh (st s) (na s) x (gen s) (mode s) (reason s) (stopped s) (toldall s) (nmem s) (starts s) (runterms s) (terms s).
+  upd s (st s) x (ng s) (mode s) (reason s) (stopped s) (toldall s) (starting s) (rbk s).
+(* a.group.LoadAndDelete(pid) found the pid; ghost: the last killed member of a rolled-back start *)
+Definition upd_del (s : shared) : shared :=
+  upd s (st s) (na s) (pred (ng s)) (mode s) (reason s) (stopped s) (toldall s) (starting s)
+      (rbk s && (0 <? pred (ng s))).
 Definition upd_closed (s : shared) : shared :=
-  mk_sh (st s) (na s) (ng s) (gen s) (mode s) (reason s) true (toldall s) (nmem s) (starts s) (runterms s) (terms s).
+  upd s (st s) (na s) (ng s) (mode s) (reason s) true (toldall s) (starting s) (rbk s).
+Definition upd_starting (s : shared) (b : bool) : shared :=
+  upd s (st s) (na s) (ng s) (mode s) (reason s) (stopped s) (toldall s) b (rbk s).
 Definition reason_or_normal (s : shared) : nat := match reason s with Some r => r | None => 0 end.
 Definition add_term (s : shared) : shared :=
   mk_sh (st s) (na s) (ng s) (gen s) (mode s) (reason s) (stopped s) (toldall s) (nmem s) (starts s)
-        (S (runterms s)) (terms s ++ [reason_or_normal s]).
+        (S (runterms s)) (terms s ++ [reason_or_normal s]) (starting s) (runstarts s) (rbk s).
+Definition add_start (s : shared) : shared :=
+  mk_sh (st s) (na s) (ng s) (gen s) (mode s) (reason s) (stopped s) (toldall s) (nmem s) (S (starts s))
+        (runterms s) (terms s) (starting s) (S (runstarts s)) (rbk s).
 
-(* a successful start: CAS Loaded->Running, a.reason = nil, a.mode = mode, a.stopped = make(chan),
-   all members spawned and stored, Start callback *)
-Definition started (s : shared) (m : nat) : shared :=
-  mk_sh SR (nmem s) (nmem s) (S (gen s)) m None false false (nmem s) (S (starts s)) 0 (terms s).
-(* a start rolled back at member k: the k started members are killed (each runs terminate, the
-   last one finalises the run: closes the channel and runs the Terminate callback with kill if the
-   mode rule fired, normal otherwise), then atomic.StoreInt32(&a.state, Loaded) *)
-Definition rolled_back (s : shared) (m k : nat) : shared :=
-  match k with
-  | 0 => mk_sh SL 0 0 (S (gen s)) m None false false (nmem s) (starts s) 0 (terms s)
-  | _ => mk_sh SL 0 0 (S (gen s)) m (Some (if rule_fires m 2 then 2 else 0)) true false (nmem s) (starts s) 1
-               (terms s ++ [if rule_fires m 2 then 2 else 0])
-  end.
+(* the CAS Loaded->Running succeeded: a new run.  a.reason = nil, a.mode = mode,
+   a.stopped = make(chan struct{}), a.starting = 1 (no yield point in between) *)
+Definition run_begin (s : shared) (m : nat) : shared :=
+  mk_sh SR (na s) (ng s) (S (gen s)) m None false false (nmem s) (starts s) 0 (terms s) true 0 false.
+(* node.spawnMember succeeded: Init ran, a.group.Store(pid), n.processes.Store(pid).  The new member
+   has not been told anything; it is the business of the check step that follows (toldall speaks about
+   the members whose start call is past its check) *)
+Definition spawned (s : shared) : shared :=
+  upd s (st s) (S (na s)) (S (ng s)) (mode s) (reason s) (stopped s) (toldall s) (starting s) (rbk s).
+(* atomic.StoreInt32(&a.state, Loaded) of the roll-back; ghost: killed members are still in the group *)
+Definition rolled_back (s : shared) : shared :=
+  upd s SL (na s) (ng s) (mode s) (reason s) (stopped s) (toldall s) (starting s) (0 <? ng s).
+
+Definition fails_at (fail : option nat) (k : nat) : bool :=
+  match fail with Some j => j =? k | None => false end.
 
 Definition step_pc (s : shared) (p : pc) : option (shared * pc) :=
   match p with
   | S_cas m fail =>
       match st s with
-      | SL => match fail with
-              | Some k => if k <? nmem s then Some (rolled_back s m k, Done 7) else Some (started s m, Done 0)
-              | None => Some (started s m, Done 0)
-              end
+      | SL => Some (run_begin s m, S_spawn fail 0)
       | SR => Some (s, Done 1)      (* ErrApplicationRunning *)
       | _ => Some (s, Done 2)       (* ErrApplicationState *)
       end
+  | S_spawn fail k =>
+      if k <? nmem s then
+        if fails_at fail k then Some (s, S_rbkill)     (* spawn returned an error *)
+        else Some (spawned s, S_chk fail k)
+      else Some (s, S_cb)                              (* the loop is over *)
+  | S_chk fail k =>
+      match st s with
+      | SR => Some (upd_told s false, S_spawn fail (S k))  (* one more member nobody has told *)
+      | _ => Some (s, S_spawn fail (S k))                  (* SendExit(pid, shutdown) *)
+      end
+  | S_rbkill => Some (upd_told s true, S_rollback)
+  | S_rollback => Some (rolled_back s, S_rbclear)
+  | S_rbclear => Some (upd_starting s false, Done 7)
+  | S_cb => Some (add_start s, S_done)
+  | S_done => Some (upd_starting s false, S_len)
+  | S_len => if 0 <? ng s then Some (s, Done 0) else Some (s, D_default)
   | P_cas f k =>
       match st s with
       | SR => Some (upd_st s SS, P_mode f k)
@@ -119,7 +166,7 @@ Definition step_pc (s : shared) (p : pc) : option (shared * pc) :=
       end
   | P_mode f k => Some (upd_mode s 1, P_reason f k)
   | P_reason f k => Some (upd_reason s (Some (if f then 2 else 1)), P_tell k)
-  | P_tell k => Some (upd_told s, P_wait k)
+  | P_tell k => Some (upd_told s true, P_wait k)
   | P_wait k =>
       if stopped s then Some (s, Done 0)
       else match k with 0 => Some (s, Done 3) | S k' => Some (s, P_wait k') end
@@ -129,16 +176,17 @@ Definition step_pc (s : shared) (p : pc) : option (shared * pc) :=
       | S n => Some (upd_na s n, D_delete (gen s) r)
       end
   | D_delete g r =>
-      if (g =? gen s) && (0 <? ng s) then Some (upd_ng s (pred (ng s)), D_mode r)
+      if (g =? gen s) && (0 <? ng s) then Some (upd_del s, D_mode r)
       else Some (s, Done 0)         (* not in the group: do nothing *)
-  | D_mode r => if rule_fires (mode s) r then Some (s, D_stopping r) else Some (s, D_len)
+  | D_mode r => if rule_fires (mode s) r then Some (s, D_stopping r) else Some (s, D_starting)
   | D_stopping r =>
       match st s with
       | SR => Some (upd_st s SS, D_reason r)
-      | _ => Some (s, D_len)        (* already stopping (or stopped) *)
+      | _ => Some (s, D_starting)   (* already stopping (or stopped) *)
       end
   | D_reason r => Some (upd_reason s (Some r), D_tell)
-  | D_tell => Some (upd_told s, D_len)
+  | D_tell => Some (upd_told s true, D_starting)
+  | D_starting => if starting s then Some (s, Done 0) else Some (s, D_len)
   | D_len => if 0 <? ng s then Some (s, Done 0) else Some (s, D_default)
   | D_default => Some (upd_reason s (Some (reason_or_normal s)), D_loaded)
   | D_loaded =>
@@ -183,26 +231,47 @@ Fixpoint run (sched : list nat) (c : cfg) : cfg :=
 (* ---- pc classes ----------------------------------------------------------------------- *)
 Definition count (f : pc -> bool) (l : list pc) : nat := length (filter f l).
 
+(* inside application.terminate / application.finalise *)
 Definition die_inflight (p : pc) : bool :=
   match p with
-  | D_delete _ _ | D_mode _ | D_stopping _ | D_reason _ | D_tell | D_len | D_default | D_loaded | D_close | D_cb => true
+  | D_delete _ _ | D_mode _ | D_stopping _ | D_reason _ | D_tell | D_starting | D_len | D_default | D_loaded
+  | D_close | D_cb => true
   | _ => false
   end.
 Definition stop_inflight (p : pc) : bool :=
   match p with P_load _ _ | P_mode _ _ | P_reason _ _ | P_tell _ | P_wait _ => true | _ => false end.
+Definition start_inflight (p : pc) : bool :=
+  match p with
+  | S_spawn _ _ | S_chk _ _ | S_rbkill | S_rollback | S_rbclear | S_cb | S_done | S_len => true
+  | _ => false
+  end.
+Definition call_inflight (p : pc) : bool := die_inflight p || start_inflight p.
+Definition busy (p : pc) : bool := die_inflight p || stop_inflight p || start_inflight p.
 Definition deleter (g : nat) (p : pc) : bool := match p with D_delete g' _ => g' =? g | _ => false end.
 Definition stale (g : nat) (p : pc) : bool := match p with D_delete g' _ => negb (g' =? g) | _ => false end.
+(* has read a.starting == 0 in this run (or has reset it itself) *)
+Definition pastflag (p : pc) : bool :=
+  match p with S_len | D_len | D_default | D_loaded | D_close | D_cb => true | _ => false end.
 Definition sawempty (p : pc) : bool := match p with D_default | D_loaded => true | _ => false end.
 Definition finaliser (p : pc) : bool := match p with D_close | D_cb => true | _ => false end.
 Definition pretell (p : pc) : bool :=
   match p with P_mode _ _ | P_reason _ _ | P_tell _ | D_reason _ | D_tell => true | _ => false end.
+(* the start call between its CAS and the reset of a.starting *)
+Definition starter (p : pc) : bool :=
+  match p with S_spawn _ _ | S_chk _ _ | S_rbkill | S_rollback | S_rbclear | S_cb | S_done => true | _ => false end.
+(* ... before the roll-back's store of Loaded / before the Start callback has returned *)
+Definition inloop (p : pc) : bool :=
+  match p with S_spawn _ _ | S_chk _ _ | S_rbkill | S_rollback | S_cb | S_done => true | _ => false end.
+Definition prestart (p : pc) : bool :=
+  match p with S_spawn _ _ | S_chk _ _ | S_rbkill | S_rollback | S_rbclear | S_cb => true | _ => false end.
+Definition rbclear (p : pc) : bool := match p with S_rbclear => true | _ => false end.
+Definition sdone (p : pc) : bool := match p with S_done => true | _ => false end.
 
-(* the guard of the theorems: a start / unload begins only when no terminate or stop call is in
-   flight (quiescent restart) *)
+(* the guard of the theorems: a start / unload begins only at quiescence - no terminate, stop or
+   start call is in flight and no member (of an earlier, rolled-back attempt) is alive *)
 Definition adm (c : cfg) (i : nat) : bool :=
   match nth_error (thr c) i with
-  | Some (S_cas _ _) | Some U_cas =>
-      (count die_inflight (thr c) =? 0) && (count stop_inflight (thr c) =? 0)
+  | Some (S_cas _ _) | Some U_cas => (count busy (thr c) =? 0) && (na (sh c) =? 0)
   | _ => true
   end.
 
@@ -219,5 +288,8 @@ Definition initial_pc (p : pc) : bool :=
   match p with S_cas _ _ | P_cas _ _ | D_die _ | U_cas => true | _ => false end.
 
 (* a loaded application with n member specs and any list of threads at their first pc *)
-Definition init_shared (n : nat) (m : nat) : shared := mk_sh SL 0 0 0 m None false false n 0 0 [].
+Definition init_shared (n : nat) (m : nat) : shared := mk_sh SL 0 0 0 m None false false n 0 0 [] false 0 false.
 Definition init_cfg (n m : nat) (threads : list pc) : cfg := mk_cfg (init_shared n m) threads.
+
+(* schedule helper: thread i, k times *)
+Fixpoint rep (i k : nat) : list nat := match k with 0 => [] | S k' => i :: rep i k' end.
